@@ -69,6 +69,10 @@ def boundary_lists(rnd):
     for n in [0, 255, 256]:
         for m in [0, 1, 255]:
             out.append([ct.mkfile("ONE", ct.content(rnd, "ramp", n)), ct.mkfile("TWO", ct.content(rnd, "3c", m), 0, 255, 0x553C, 0x3C00), ct.mkfile("THREE", ct.content(rnd, "rand", 300), 1, 0)])
+    addrs = [0, 1, 0x7F, 0x80, 0xFF, 0x100, 0x101, 0xFFF, 0x1000, 0x7FFF, 0x8000, 0xFF00, 0xFFFF, 0x0A0D, 0x2000]
+    for i, a in enumerate(addrs):                      # all 16-bit load / entry addresses: every byte boundary, both positions
+        b = addrs[(i * 7 + 3) % len(addrs)]
+        out.append([ct.mkfile("AD%d" % i, [1, 2, 3, 4], 2, 0, a, b), ct.mkfile("AE%d" % i, [5, 6], rnd.choice([0, 1, 3]), rnd.choice([0, 255]), b, a)])
     for nm in ["", "A", "ABCDEFGH", "ABCDEFGHI", "abcdefghijkl", "Mixed1", "U<"]:
         out.append([ct.mkfile(nm, [1, 2, 3], 3, 255, 0xFFFF, 0x0055)])
     return out
